@@ -950,6 +950,55 @@ fn run_sase_scenario(ctx: &mut Ctx) {
     }
 }
 
+// ---------------------------------------------------------------------------------------------
+// C19, component level: PerSourceWatermarkTracker through its public API (model replay)
+// ---------------------------------------------------------------------------------------------
+use varpulis_runtime::watermark::PerSourceWatermarkTracker;
+
+fn eff_text(t: &PerSourceWatermarkTracker) -> String {
+    t.effective_watermark().map(|w| w.timestamp_nanos_opt().unwrap_or(0).to_string()).unwrap_or_else(|| "-".into())
+}
+
+fn run_tracker_scenario(ctx: &mut Ctx) {
+    const SRC: &[&str] = &["T", "U", "V"];
+    let nreg = ctx.rng.below(3) as usize;
+    let regs: Vec<(&str, i64)> = (0..nreg).map(|i| (SRC[i], ctx.rng.range(0, 3) * 500)).collect();
+    let mk = |regs: &Vec<(&str, i64)>| { let mut t = PerSourceWatermarkTracker::new(); for (s, ooo) in regs { t.register_source(s, chrono::Duration::milliseconds(*ooo)); } t };
+    let subms = ctx.rng.chance(1, 2);
+    let n_ops = 4 + ctx.rng.below(if ctx.thorough { 14 } else { 9 });
+    let cut_at = ctx.rng.below(n_ops);
+    ctx.directive("new");
+    ctx.directive(&format!("tcfg {}", if regs.is_empty() { "-".to_string() } else { regs.iter().map(|(s, o)| format!("{}:{}", s, o)).collect::<Vec<_>>().join(",") }));
+    ctx.count("tracker:scenario");
+    let mut a = mk(&regs);
+    let mut b: Option<PerSourceWatermarkTracker> = None;
+    let mut t_ms: i64 = 0;
+    for i in 0..n_ops {
+        if i == cut_at {
+            let cp = a.checkpoint();
+            let bytes = match codec::serialize(&cp, CheckpointFormat::active()) { Ok(x) => x, Err(_) => { ctx.case("tcut", "unreadable"); return; } };
+            let j = json_tree(&bytes);
+            match codec::deserialize::<WatermarkCheckpoint>(&bytes) {
+                Ok(cp2) => { let mut f = mk(&regs); f.restore(&cp2); b = Some(f); ctx.case("tcut", &j); }
+                Err(_) => { ctx.case("tcut", "unreadable"); return; }
+            }
+        }
+        t_ms += *ctx.rng.pick(&[0i64, 1, 250, 500, 1000, 2000]);
+        let src = *ctx.rng.pick(SRC);
+        let ts = (t_ms + ctx.rng.range(-1500, 500)) * 1_000_000 + if subms { ctx.rng.range(0, 999_999) } else { 0 };
+        let adv = ctx.rng.chance(1, 4);
+        let t = chrono::DateTime::from_timestamp_nanos(ts);
+        if adv { a.advance_source_watermark(src, t); } else { a.observe_event(src, t); }
+        let ra = eff_text(&a);
+        let line = format!("{} {} {}", if adv { "tadv" } else { "tobs" }, src, ts);
+        match b.as_mut() {
+            Some(bt) => { if adv { bt.advance_source_watermark(src, t); } else { bt.observe_event(src, t); } let rb = eff_text(bt); ctx.case(&line, &format!("A={} B={}", ra, rb)); }
+            None => ctx.case(&line, &ra),
+        }
+        ctx.count(if adv { "tracker:advance" } else { "tracker:observe" });
+    }
+}
+
 fn wev(ty: &str, ts_ns: i64, id: i64, x: i64, k: &str) -> Op {
     Op::Ev(mk_event(ty, ts_ns, vec![("id".into(), Value::Int(id)), ("x".into(), Value::Int(x)), ("k".into(), Value::Str(k.into()))]))
 }
@@ -991,6 +1040,7 @@ fn run_c19(ctx: &mut Ctx) {
     for _ in 0..n { let sc = gen_scenario(ctx); run_scenario(ctx, &rt, &sc, true, false); }
     for _ in 0..(if ctx.thorough { 6000 } else { 500 }) { run_window_scenario(ctx); }
     for _ in 0..(if ctx.thorough { 3000 } else { 250 }) { run_sase_scenario(ctx); }
+    for _ in 0..(if ctx.thorough { 3000 } else { 300 }) { run_tracker_scenario(ctx); }
 }
 
 pub fn run(ctx: &mut Ctx, name: &str) {
